@@ -14,6 +14,7 @@ import (
 	"bufio"
 	"context"
 	"encoding/json"
+	"errors"
 	"flag"
 	"fmt"
 	"math/big"
@@ -29,6 +30,7 @@ import (
 	"verifharness/hplug"
 	"verifharness/plangen"
 
+	"github.com/Azure/azure-sdk-for-go/sdk/azcore"
 	"github.com/Azure/azure-sdk-for-go/sdk/data/azcosmos"
 	"github.com/element-of-surprise/coercion/workflow"
 	"github.com/element-of-surprise/coercion/workflow/storage"
@@ -46,7 +48,8 @@ const (
 	scenarioDeadline = 90 * time.Second
 )
 
-var names = []string{"", "alpha", "beta", "gamma"}
+// names and descriptions, incl. numeric-looking ones (a column with numeric affinity would rewrite them)
+var names = []string{"", "alpha", "beta", "gamma", "007", "1e3", "+15", " 15 ", "12345678901234567890", "0x1F", "1.50"}
 
 // ---------------------------------------------------------------------------------- abstraction
 
@@ -226,6 +229,8 @@ func (f filterSpec) kind() string {
 
 type ctl interface {
 	SearchItemRaw(ctx context.Context, id string) ([]byte, error)
+	SetReadItemErr(err error)
+	SetQueryItemsErr(b bool)
 }
 
 type vaultUnderTest struct {
@@ -681,6 +686,71 @@ func (s *scenario) list(limit int) {
 		term: core.App("TList", core.B(!s.vt.cosmos), core.Z(int64(limit)), o.term()), limit: &limit})
 }
 
+// faults: cosmosdb only. Every point read is answered with an HTTP error status (or a non-HTTP error) and
+// Exists is asked about a stored and a never-created id; then every query fails and Search / List are run.
+// Nothing is mutated while a fault is set.
+func (s *scenario) faults() {
+	if !s.vt.cosmos {
+		return
+	}
+	stored := 0
+	for ix := 1; ix <= s.nPlans; ix++ {
+		if _, ok := s.live[ix]; ok {
+			stored = ix
+			break
+		}
+	}
+	ids := []int{s.unknown[0]}
+	if stored != 0 {
+		ids = append(ids, stored)
+	}
+	codes := []int{404, 409, 410, 412, 429, 500, 503, 0}
+	for _, code := range codes {
+		var err error = errors.New("verif: injected transport error")
+		reply := "RFailed"
+		if code != 0 {
+			err = &azcore.ResponseError{StatusCode: code, ErrorCode: fmt.Sprintf("injected-%d", code)}
+			reply = core.App("RStatus", core.Nat(code))
+		}
+		s.vt.ctl.SetReadItemErr(err)
+		for _, ix := range ids {
+			u := s.uu[ix]
+			var got bool
+			class, note := guarded(func(ctx context.Context) error {
+				var e error
+				got, e = s.vt.v.Exists(ctx, u)
+				return e
+			})
+			obs := 2
+			if class == 0 {
+				obs = 0
+				if got {
+					obs = 1
+				}
+			}
+			s.hist[fmt.Sprintf("exists-fault:%d:stored=%v", code, ix == stored)]++
+			s.add(stepRec{Kind: "exists-fault", Input: map[string]any{"ix": ix, "read_answered": code, "stored": ix == stored}, Obs: obs, Note: note,
+				term: core.App("TExistsFault", reply, core.N(uint64(ix)), core.Nat(obs))})
+		}
+	}
+	s.vt.ctl.SetReadItemErr(nil)
+
+	s.vt.ctl.SetQueryItemsErr(true)
+	f := filterSpec{IDs: ids}
+	sf := s.filters(f)
+	o := observeStream(s.a, s.h, s.backend+":search-fault", func(ctx context.Context) (chan storage.Stream[storage.ListResult], error) {
+		return s.vt.v.Search(ctx, sf)
+	})
+	s.hist["stream-fault:search"]++
+	s.add(stepRec{Kind: "search-fault", Input: f, Obs: o, Note: o.Note, term: core.App("TStreamFault", o.term())})
+	o = observeStream(s.a, s.h, s.backend+":list-fault", func(ctx context.Context) (chan storage.Stream[storage.ListResult], error) {
+		return s.vt.v.List(ctx, 0)
+	})
+	s.hist["stream-fault:list"]++
+	s.add(stepRec{Kind: "list-fault", Input: map[string]any{"limit": 0}, Obs: o, Note: o.Note, term: core.App("TStreamFault", o.term())})
+	s.vt.ctl.SetQueryItemsErr(false)
+}
+
 // pick returns k values drawn from pool (with repetition allowed when dup).
 func pick(r *core.Rand, pool []int, k int) []int {
 	if len(pool) == 0 {
@@ -843,9 +913,14 @@ func (s *scenario) battery(full bool) {
 		// long id lists (more than 500 / 1000 entries), alone and with the other filters
 		totals := []int{501, 600, 1100}
 		kinds := []int{1, 1, 3, 5, 7}
-		s.search(s.longFilter(totals[s.index%3], kinds[(s.index/3)%5]))
+		// (quick tier: every other history, independent of back end and store size; the O(n^2) placeholder
+		// lookup of the model makes these the most expensive terms to evaluate)
+		g := s.index / 3
+		if s.tier == "thorough" || (g+g/13)%2 == 0 {
+			s.search(s.longFilter(totals[(g+g/13)/2%3], kinds[(g/2)%5]))
+		}
 		if s.tier == "thorough" {
-			s.search(s.longFilter(totals[(s.index+1)%3], kinds[(s.index/3+2)%5]))
+			s.search(s.longFilter(totals[(g+1)%3], kinds[(g+2)%5]))
 		}
 	}
 	n := len(s.live)
@@ -991,6 +1066,7 @@ func runScenario(seed uint64, index int, tier string, scratch string) core.Case 
 		s.create(planSpec{Ix: 0, Status: 100, Submit: base, Start: base + 2, End: zeroSubmit}) // uuid.Nil is rejected
 	}
 	s.battery(true)
+	s.faults()
 
 	terms := make([]string, len(s.steps))
 	var hparts []string
